@@ -1,9 +1,9 @@
 #!/bin/bash
-# tools/seedbatch10.sh <tier> <id> [<id>...] : round-10 variant of seedbatch.sh (patch_S / patch_T under $SEEDBASE/<id>/), ids run 4 at a time
+# tools/seedbatch10.sh <tier> <id> [<id>...] : rounds 10+ variant of seedbatch.sh (patch_<X> for X in $VARIANTS, default "S T", under $SEEDBASE/<id>/), $PAR at a time
 TIER="$1"; shift
 B=${SEEDBASE:-/tmp/r10}
 one() { id=$1; X=$2; P=$B/$id/patch_$X.diff; Dm=$B/$id/demo_$X.py; [ -s "$P" ] || exit 0
   /verif/tools/seedtest.sh "$P" "$Dm" "$TIER" $id > $B/$id/result_${X}_$TIER.txt 2>&1; }
 export -f one; export B TIER
-for id in "$@"; do for X in S T; do echo "$id $X"; done; done | xargs -P ${PAR:-4} -L1 bash -c 'one $0 $1'
-for id in "$@"; do for X in S T; do [ -f $B/$id/result_${X}_$TIER.txt ] && { echo "== $id $X"; cat $B/$id/result_${X}_$TIER.txt; }; done; done
+for id in "$@"; do for X in ${VARIANTS:-S T}; do echo "$id $X"; done; done | xargs -P ${PAR:-4} -L1 bash -c 'one $0 $1'
+for id in "$@"; do for X in ${VARIANTS:-S T}; do [ -f $B/$id/result_${X}_$TIER.txt ] && { echo "== $id $X"; cat $B/$id/result_${X}_$TIER.txt; }; done; done
